@@ -88,3 +88,20 @@ func lemmaRefValueRoundTrip(r *RefRecord, buf []byte, hashSize int, k int) {
 	vAssert(r2.RefName == r.RefName, "same name")
 	vAssert(len(r2.Value) == hashSize && r2.Value[k] == want, "same hash, byte by byte")
 }
+
+// lemmaIndexValueRoundTrip (C01 layer 3, index records; also what C02's view assumes about tChild): decoding what
+// indexRecord.encode wrote accepts it, consumes exactly the bytes written and returns the same child position.
+func lemmaIndexValueRoundTrip(r *indexRecord, buf []byte, key string) {
+	vAssume(r != nil && r.Offset < 1<<62)
+	n, ok := r.encode(buf, 20)
+	if !ok {
+		return
+	}
+	off := r.Offset
+	var r2 indexRecord
+	m, ok2 := r2.decode(buf[:n], key, 0, 20)
+	vAssert(ok2, "the decoder accepts what the encoder wrote")
+	vAssert(m == n, "it consumes exactly the bytes written")
+	vAssert(r2.Offset == off, "same child position")
+	vAssert(r2.LastKey == key, "same key")
+}
